@@ -200,3 +200,13 @@ M("ps-table-j", PS, '    dict_angmom = {"s": 0, "p": 1, "d": 2, "f": 3, "g": 4, 
 M("ps-unpack-swap", PS, "        for angmom, exps, coeffs in basis_dict[atom]:", "        for angmom, coeffs, exps in basis_dict[atom]:", "C18")
 M("ps-sp-col", PS, "                output[atom].append((angmom, exps, coeffs_gen[:, i]))", "                output[atom].append((angmom, exps, coeffs_gen[:, 0]))", "C18")
 M("ps-pyscf-col", "gbasis/wrappers.py", "            coeffs = np.array(exps_coeffs[:, 1:])", "            coeffs = np.array(exps_coeffs[:, 1:2])", "C18")
+
+# ----------------------------------------------------------------------------------------------- C12
+M("c12-zpass-comp", OE, "        rel_coord_a[:, 2, :, :, :][:, None, None, :, :, :] * integrals[:-1, :, :, 0:1, :, :, :]", "        rel_coord_a[:, 1, :, :, :][:, None, None, :, :, :] * integrals[:-1, :, :, 0:1, :, :, :]", "C12")
+M("c12-absolute", OE, "    rel_coord_a = coord_wac - coord_a  # R_pa", "    rel_coord_a = coord_wac  # R_pa", "C12")
+M("c12-hrr-comp", OE, "            + rel_dist[1] * integrals[:, b, 0, :, :-1, :, :, :, :]", "            + rel_dist[0] * integrals[:, b, 0, :, :-1, :, :, :, :]", "C12")
+M("c12-et-comp", TE, "            (rel_coord_c[2] + exps_sum_one / exps_sum_two * rel_coord_a[2])\n            * integrals_etransf[:, :, c, :, :, 1:-1]", "            (rel_coord_c[2] + exps_sum_one / exps_sum_two * rel_coord_a[1])\n            * integrals_etransf[:, :, c, :, :, 1:-1]", "C12,C04")
+M("c12-mom-comp", MI, "    integrals[0, 0, 1:2, :, :, :] = rel_coord_a * integrals[0, 0, 0:1, :, :, :]", "    integrals[0, 0, 1:2, :, :, :] = rel_coord_a[:, :, :, 0:1] * integrals[0, 0, 0:1, :, :, :]", "C12")
+M("c12-kin-table", KE, "            np.array([[2, 0, 0], [0, 2, 0], [0, 0, 2]]),", "            np.array([[2, 0, 0], [0, 2, 0], [0, 1, 1]]),", "C12,C02")
+M("c12-stable", MI, "        -harm_mean * (coord_a - coord_b) ** 2\n", "        exps_sum * coord_wac**2 - exps_a * coord_a**2 - exps_b * coord_b**2\n", "C12,C01")
+M("c12-eval-abs", DV, "    gauss = np.exp(-alphas[:, None, None] * (new_coords**2))", "    gauss = np.exp(-alphas[:, None, None] * (coords.T**2))", "C12,C05")
